@@ -676,7 +676,7 @@ func aggEngine(args []string, in *bufio.Scanner, out *bufio.Writer) {
 					a.cli.mu.Lock()
 					got = append([]*drand.PartialBeaconPacket{}, a.cli.bcast...)
 					a.cli.mu.Unlock()
-					if len(got) > 0 || a.n == 1 || time.Now().After(deadline) {
+					if len(got) >= len(a.groups[a.live].group.Nodes)-1 || time.Now().After(deadline) {
 						break
 					}
 					time.Sleep(100 * time.Microsecond)
